@@ -382,7 +382,46 @@ func (r *Run) OnCondMustCall(fnName, cond, targets, why string) {
 		r.pass("K2-on-cond", fnName, construct, "every path from that edge passes "+targets, why, g.File, g.Line)
 		return
 	}
+	// the branch may have moved, with its block, into a helper that is new relative to the reviewed
+	// tree: the same condition in the caller's terms, and the same obligation inside the helper
+	for _, cs := range r.newHelperSites(fn) {
+		h := cs.Instr.Common().StaticCallee()
+		hasRecv := h.Signature.Recv() != nil
+		for _, g := range r.P.Info(h).guards {
+			c := g.Cond.Subst(cs.Path.Args, hasRecv)
+			var start *ssa.BasicBlock
+			if c.String() == cond {
+				start = g.Block.Succs[0]
+			} else if c.Negate().String() == cond {
+				start = g.Block.Succs[1]
+			} else {
+				continue
+			}
+			if b, bad := r.exitReachableAvoidingCalls(h, start, tl); bad {
+				f2, l2 := r.P.Pos(lastInstr(b).Pos())
+				r.viol("K2-on-cond", fnName, construct, fmt.Sprintf("when %s holds (%s:%d, in new helper %s) the return at %s:%d is reachable without calling %s", cond, g.File, g.Line, h.Name(), f2, l2, targets), why, f2, l2)
+				return
+			}
+			r.pass("K2-on-cond", fnName, construct, "in new helper "+h.Name()+": every path from that edge passes "+targets, why, g.File, g.Line)
+			return
+		}
+	}
 	r.viol("K2-on-cond", fnName, construct, fnName+" no longer branches on "+cond, why, file, line)
+}
+
+// newHelperSites: the calls in fn of helpers that are new relative to the reviewed tree.
+func (r *Run) newHelperSites(fn *ssa.Function) []*CallSite {
+	if knownFuncs == nil {
+		return nil
+	}
+	env := r.P.Env(fn)
+	var out []*CallSite
+	for _, cs := range r.P.Calls(fn, false) {
+		if cs.Instr != nil && env.isNewHelper(cs.Instr.Common()) {
+			out = append(out, cs)
+		}
+	}
+	return out
 }
 
 // MustPassAny: every success exit passes a successful call to at least one of the matchers.
@@ -755,6 +794,41 @@ func (r *Run) StoreBefore(fnName, storePrefix, guardFull, why string) {
 		}
 	}
 	if g == nil {
+		// store and guard may have moved together into a helper that is new relative to the reviewed
+		// tree: the guard in the caller's terms under the call's context, the store before it there
+		for _, cs := range r.newHelperSites(fn) {
+			h := cs.Instr.Common().StaticCallee()
+			hasRecv := h.Signature.Recv() != nil
+			cctx := r.blockCtx(fn, cs.Instr.Block())
+			for _, x := range r.P.Info(h).guards {
+				if x.Reject == "" {
+					continue
+				}
+				ctx := append([]Cond{}, cctx...)
+				for _, c := range x.Ctx {
+					ctx = append(ctx, c.Subst(cs.Path.Args, hasRecv))
+				}
+				if normFull(fullCond(x.RejCond.Subst(cs.Path.Args, hasRecv), ctx)) != normFull(guardFull) {
+					continue
+				}
+				for _, e := range r.P.Effects(h) {
+					if e.Kind != "store" || e.P == nil || e.V == nil {
+						continue
+					}
+					canon := "store " + e.P.Subst(cs.Path.Args, hasRecv).String() + " = " + e.V.Subst(cs.Path.Args, hasRecv).String()
+					if !strings.HasPrefix(canon, storePrefix) {
+						continue
+					}
+					sb := e.Instr.Block()
+					if sb == x.Block || sb.Dominates(x.Block) {
+						r.pass("K2-store-before-guard", fnName, construct, "in new helper "+h.Name(), why, e.File, e.Line)
+						return
+					}
+					r.viol("K2-store-before-guard", fnName, construct, fmt.Sprintf("the store at %s:%d does not dominate the guard at %s:%d: the guard can be evaluated on a value that was not recomputed", e.File, e.Line, x.File, x.Line), why, e.File, e.Line)
+					return
+				}
+			}
+		}
 		r.viol("K2-store-before-guard", fnName, construct, "guard not found: "+guardFull, why, file, line)
 		return
 	}
@@ -1236,6 +1310,45 @@ func (r *Run) StoreContext(fnName, prefix, wantCtx, why string) {
 			r.viol("K2-store-context", fnName, construct, fmt.Sprintf("the store at %s:%d now executes under `%s` instead of `%s`: on the other paths the value is not recomputed", e.File, e.Line, got, want), why, e.File, e.Line)
 		}
 		return
+	}
+	// the store may have moved into a helper that is new relative to the reviewed tree: the same
+	// store in the caller's terms, under the call's context plus its context inside the helper
+	for _, hs := range r.newHelperSites(fn) {
+		h := hs.Instr.Common().StaticCallee()
+		hasRecv := h.Signature.Recv() != nil
+		for _, e := range r.P.Effects(h) {
+			if e.Kind != "store" || e.P == nil || e.V == nil {
+				continue
+			}
+			canon := "store " + e.P.Subst(hs.Path.Args, hasRecv).String() + " = " + e.V.Subst(hs.Path.Args, hasRecv).String()
+			if !strings.HasPrefix(canon, prefix) {
+				continue
+			}
+			var cs []string
+			seen := map[string]bool{}
+			ctx := append([]Cond{}, r.blockCtx(fn, hs.Instr.Block())...)
+			for _, c := range r.blockCtx(h, e.Instr.Block()) {
+				ctx = append(ctx, c.Subst(hs.Path.Args, hasRecv))
+			}
+			for _, c := range ctx {
+				if s := c.String(); !seen[s] {
+					seen[s] = true
+					cs = append(cs, s)
+				}
+			}
+			sort.Strings(cs)
+			got := strings.Join(cs, " & ")
+			want := strings.TrimPrefix(normFull("x @ "+r.X(wantCtx)), "x @ ")
+			if wantCtx == "" {
+				want = ""
+			}
+			if got == want {
+				r.pass("K2-store-context", fnName, construct, "in new helper "+h.Name(), why, e.File, e.Line)
+			} else {
+				r.viol("K2-store-context", fnName, construct, fmt.Sprintf("the store at %s:%d (new helper %s) now executes under `%s` instead of `%s`: on the other paths the value is not recomputed", e.File, e.Line, h.Name(), got, want), why, e.File, e.Line)
+			}
+			return
+		}
 	}
 	r.viol("K2-store-context", fnName, construct, "store not found", why, file, line)
 }
